@@ -250,9 +250,11 @@ Definition known (w : world) (a : ast) (o : op) : option kclass :=
         end
   | Cd None =>
       match vget a s_HOME with
-      | Some (h, true) =>
-          if str_eqb h s_dash then None
-          else if w_exists w (join_path (acwd a) h) then None else Some KCdHomeMissing
+      | Some (_, true) =>
+          match cd_target a None with
+          | Some full => if w_exists w full then None else Some KCdHomeMissing
+          | None => None
+          end
       | _ => Some KCdHomeNotExported
       end
   | _ => None
